@@ -61,6 +61,10 @@ type sweepOut struct {
 	final    *fixture.Client
 }
 
+// sweepBrokerHook, when set, is called with the broker of a sweeper case right after it has started (TestC15Sweep
+// uses it to start its background load).
+var sweepBrokerHook func(b *fixture.Broker)
+
 func runSweep(prop string) func(s sweepScen, c *ev.Case) *ev.Violation {
 	return func(s sweepScen, c *ev.Case) *ev.Violation {
 		cfg := fixture.BaseConfig()
@@ -80,6 +84,9 @@ func runSweep(prop string) func(s sweepScen, c *ev.Case) *ev.Violation {
 			return harnessErr("start broker: %v", err)
 		}
 		defer b.Stop()
+		if sweepBrokerHook != nil {
+			sweepBrokerHook(b)
+		}
 		c.Label("sweeper_case")
 		const sweepPeriod = 20 * time.Second
 		secondSweep := t0.Add(2*sweepPeriod + 1500*time.Millisecond) // both ticks have certainly fired by then
@@ -293,4 +300,68 @@ func TestC20Sweep(t *testing.T) {
 		t.Skip("one sweeper case per quick run (shard 0)")
 	}
 	ev.RunN(t, "C20", scale, genSweep, runSweep("C20"))
+}
+
+// TestC15Sweep runs a sweeper case (see above) in the -race binary while other clients and API callers keep the broker
+// busy: the session-expiry loop is one of the goroutines C15 quantifies over, and no ordinary C15 case lives the 20 s
+// it takes to fire. Oracles: the race detector, and the sweeper oracles themselves (which must hold under load).
+func TestC15Sweep(t *testing.T) {
+	scale, run := sweepScale()
+	if !run {
+		t.Skip("one sweeper case per quick run (shard 0)")
+	}
+	ev.RunN(t, "C15", scale, genSweep, func(s sweepScen, c *ev.Case) *ev.Violation {
+		s.Redis = false // the race binary is about the broker's own memory stores
+		c.Label("sweeper_under_load")
+		stop := make(chan struct{})
+		var wg sync.WaitGroup
+		var brokerRef struct {
+			sync.Mutex
+			b *fixture.Broker
+		}
+		sweepBrokerHook = func(b *fixture.Broker) {
+			brokerRef.Lock()
+			brokerRef.b = b
+			brokerRef.Unlock()
+			for w := 0; w < 3; w++ {
+				wg.Add(1)
+				go func(w int) {
+					defer wg.Done()
+					for k := 0; ; k++ {
+						select {
+						case <-stop:
+							return
+						default:
+						}
+						id := fmt.Sprintf("bg%d-%d", w, k%4)
+						cl, ack, err := b.Connect(fixture.ConnectOpts{ID: id, V: mw.V5, CleanStart: k%3 == 0, AutoAck: true, Props: &mw.Props{SessionExpiry: u32p(uint32(k % 3))}})
+						if err != nil || ack == nil || ack.ReasonCode != 0 {
+							time.Sleep(5 * time.Millisecond)
+							continue
+						}
+						_, _ = subscribeOne(cl, 1, subSpec{Filter: fmt.Sprintf("bg/%d/#", w), QoS: byte(k % 3)})
+						_, _ = cl.Publish(&mw.Packet{Topic: fmt.Sprintf("bg/%d/x", (w+1)%3), QoS: 1, PacketID: 7, Payload: []byte("bg")})
+						b.Srv.StatsManager().GetGlobalStats()
+						b.Srv.StatsManager().GetClientStats(id)
+						if k%5 == 0 {
+							b.Srv.ClientService().TerminateSession(fmt.Sprintf("bg%d-%d", (w+1)%3, k%4))
+						}
+						b.Srv.ClientService().IterateSession(func(sess *gmqtt.Session) bool { return true })
+						if k%2 == 0 {
+							cl.Kill()
+						} else {
+							_ = cl.Send(&mw.Packet{Type: mw.DISCONNECT})
+							cl.Kill()
+						}
+						time.Sleep(time.Duration(1+k%7) * time.Millisecond)
+					}
+				}(w)
+			}
+		}
+		defer func() { sweepBrokerHook = nil }()
+		v := runSweep("C15")(s, c)
+		close(stop)
+		wg.Wait()
+		return v
+	})
 }
